@@ -314,7 +314,17 @@ static int op_h_free(int argc, char **argv, FILE *out)
         return 0;
 }
 
+/* memuse -> number of live heap blocks (allocator interposition, harness/memcount.c; builds with -DKV_MEMCOUNT only) */
+extern long kv_live_blocks;
+static int op_memuse(int argc, char **argv, FILE *out)
+{
+        (void)argc; (void)argv;
+        if(kv_live_blocks < 0) fputs("unavailable", out); else fprintf(out, "%ld", kv_live_blocks);
+        return 0;
+}
+
 struct kv_op kv_ops_sys[] = {
+        {"memuse", op_memuse},
         {"h_read", op_h_read},
         {"h_run", op_h_run},
         {"h_write", op_h_write},
